@@ -750,6 +750,50 @@ pub fn grid_lite<const N: usize>(dense: bool, w: &mut impl std::io::Write) -> us
     n
 }
 
+
+/// buffers beyond 4 KiB (thresholds on `size_of::<Self>()`, page-sized windows): a sparse set of index shapes, a wide set
+/// of calls
+pub fn sparse_big<const N: usize>(w: &mut impl std::io::Write) -> usize {
+    let mut n = 0;
+    let mem: Vec<u8> = (0..N).map(|i| if i % 97 == 96 { b'\n' } else { 0x41 + (i % 53) as u8 }).collect();
+    let ris = [0usize, 1, 8, 4095, 4096.min(N - 1), N / 2, N - 9, N - 1];
+    for &ri in &ris {
+        let mut lens: Vec<usize> = vec![0, 1, 2, 9, 4095, 4096, 4097, N - ri, (N - ri).saturating_sub(1), (N - ri) / 2, ri];
+        lens.sort();
+        lens.dedup();
+        for len in lens {
+            let wi = ri + len;
+            if wi > N || (ri == wi && ri > 0) {
+                continue;
+            }
+            let mut b: Box<FixedBuf<N>> = Box::new(FixedBuf::new());
+            {
+                let wr = b.writable();
+                wr.copy_from_slice(&mem);
+            }
+            b.wrote(wi);
+            if ri > 0 {
+                b.read_bytes(ri);
+            }
+            if let Some(s) = observe(&*b) {
+                let free = N - wi;
+                let d: Vec<u8> = (0..free.min(40)).map(|i| 0x61 + (i as u8 % 26)).collect();
+                let dfull: Vec<u8> = (0..free).map(|i| 0x61 + (i as u8 % 26)).collect();
+                for op in [Op::Shift, Op::Clear, Op::ReadAll, Op::ReadByte, Op::ReadBytes(len / 2), Op::ReadBytes(len), Op::ReadBytes(len + 1), Op::TryReadBytes(len),
+                           Op::IoRead(len.saturating_sub(1)), Op::ReadAndCopy(7), Op::WriteBytes(d.clone()), Op::WriteBytes(dfull.clone()), Op::IoWrite(d.clone()),
+                           Op::PokeWrote(d.clone(), d.len()), Op::PokeWrote(vec![], free + 1), Op::CopyOnce(Resp::Data(dfull, true)), Op::CopyOnce(Resp::Err(5)),
+                           Op::TryParse(vec![ROp::ReadBytes(len / 2), ROp::ReadAll], false), Op::TryParse(vec![ROp::ReadAll], false), Op::TryParse(vec![ROp::ReadAll], true),
+                           Op::TryParse(vec![ROp::ReadByte, ROp::TryParse(vec![ROp::ReadAll], false)], false),
+                           Op::Deframe(Df::Line), Op::Deframe(Df::Crlf), Op::Deframe(Df::Null)] {
+                    transition(&*b, &s, &op, w);
+                    n += 1;
+                }
+            }
+        }
+    }
+    n
+}
+
 /// long frames: a buffer whose only terminator sits at `pos`; every index shape; the deframing calls and the calls that
 /// interact with them (covers thresholds that only long frames / nearly full buffers reach)
 pub fn grid_df<const N: usize>(pos: usize, term: &[u8], w: &mut impl std::io::Write) -> usize {
@@ -784,6 +828,124 @@ pub fn grid_df<const N: usize>(pos: usize, term: &[u8], w: &mut impl std::io::Wr
             for op in [Op::Deframe(Df::Line), Op::Deframe(Df::Crlf), Op::Deframe(Df::Null), Op::Deframe(Df::LenPrefix), Op::Shift, Op::ReadAll,
                        Op::TryParse(vec![ROp::ReadAll], false), Op::ReadBytes((wi - ri) / 2), Op::IoRead(9)] {
                 transition(&b, &s, &op, w);
+                n += 1;
+            }
+        }
+    }
+    n
+}
+
+
+/// the `std::io::Read` / `std::io::Write` trait surface beyond `read` / `write`: the vectored calls (a type may override
+/// their default implementations).  Lines `TV <N> <pre> | wv <slices> | <cls> <n> | <post>` and
+/// `TV <N> <pre> | rv <lens> | <cls> <n> <dests> | <post>`; every (read offset, write offset), slice lengths around the
+/// free space / the unread length, empty slices in every position.
+pub fn vectored<const N: usize>(w: &mut impl std::io::Write) -> usize {
+    use std::io::{IoSlice, IoSliceMut, Read, Write};
+    let mut n = 0usize;
+    let mem: Vec<u8> = (0..N).map(|i| 0x41 + (i as u8 % 26)).collect();
+    for wi in 0..=N {
+        for ri in 0..=wi {
+            if ri == wi && ri > 0 {
+                continue;
+            }
+            let mut a = [0u8; N];
+            a.copy_from_slice(&mem);
+            let mut b = FixedBuf::empty(a);
+            b.wrote(wi);
+            if ri > 0 {
+                b.read_bytes(ri);
+            }
+            let s = match observe(&b) {
+                Some(s) => s,
+                None => continue,
+            };
+            let free = N - s.wi.min(N);
+            let len = s.wi.wrapping_sub(s.ri).min(N);
+            // write_vectored
+            let mut lens: Vec<usize> = vec![0, 1, 2, free.saturating_sub(1), free, free + 1];
+            lens.sort();
+            lens.dedup();
+            let mut lists: Vec<Vec<usize>> = vec![vec![], vec![0], vec![0, 0]];
+            for &x in &lens {
+                lists.push(vec![x]);
+                lists.push(vec![0, x]);
+                for &y in &lens {
+                    lists.push(vec![x, y]);
+                    if x > 0 && y > 0 {
+                        lists.push(vec![x, 0, y]);
+                        lists.push(vec![x, y, 1]);
+                    }
+                }
+            }
+            lists.sort();
+            lists.dedup();
+            for l in &lists {
+                let data: Vec<Vec<u8>> = l.iter().enumerate().map(|(i, k)| (0..*k).map(|j| b'a' + ((i * 7 + j) % 26) as u8).collect()).collect();
+                let mut c = b;
+                let r = catch_unwind(AssertUnwindSafe(|| {
+                    let ios: Vec<IoSlice> = data.iter().map(|d| IoSlice::new(d)).collect();
+                    let st = count_on();
+                    let r = c.write_vectored(&ios);
+                    let al = count_off(st);
+                    (r.map_err(|e| kind_num(e.kind())), al)
+                }));
+                let out = match r {
+                    Ok((Ok(k), al)) => format!("ok {} {}", k, al),
+                    Ok((Err(e), _)) => format!("err{} - 0", e),
+                    Err(_) => {
+                        count_off(0);
+                        "panic - 0".to_string()
+                    }
+                };
+                let sl = if data.is_empty() { "_".to_string() } else { data.iter().map(|d| hex(d)).collect::<Vec<_>>().join(",") };
+                match observe(&c) {
+                    Some(s2) => writeln!(w, "TV {} {} | wv {} | {} | {}", N, s.render_pre(), sl, out, s2.render_full()).unwrap(),
+                    None => writeln!(w, "TV {} {} | wv {} | {} | X", N, s.render_pre(), sl, out).unwrap(),
+                }
+                n += 1;
+            }
+            // read_vectored
+            let mut lens: Vec<usize> = vec![0, 1, 2, len.saturating_sub(1), len, len + 1];
+            lens.sort();
+            lens.dedup();
+            let mut lists: Vec<Vec<usize>> = vec![vec![], vec![0], vec![0, 0]];
+            for &x in &lens {
+                lists.push(vec![x]);
+                lists.push(vec![0, x]);
+                for &y in &lens {
+                    lists.push(vec![x, y]);
+                    if x > 0 && y > 0 {
+                        lists.push(vec![x, 0, y]);
+                    }
+                }
+            }
+            lists.sort();
+            lists.dedup();
+            for l in &lists {
+                let mut dests: Vec<Vec<u8>> = l.iter().map(|k| vec![0xEEu8; *k]).collect();
+                let mut c = b;
+                let r = catch_unwind(AssertUnwindSafe(|| {
+                    let mut ios: Vec<IoSliceMut> = dests.iter_mut().map(|d| IoSliceMut::new(d)).collect();
+                    let st = count_on();
+                    let r = c.read_vectored(&mut ios);
+                    let al = count_off(st);
+                    (r.map_err(|e| kind_num(e.kind())), al)
+                }));
+                let ds = if dests.is_empty() { "_".to_string() } else { dests.iter().map(|d| hex(d)).collect::<Vec<_>>().join(",") };
+                let out = match r {
+                    Ok((Ok(k), al)) => format!("ok {} {} {}", k, al, ds),
+                    Ok((Err(e), _)) => format!("err{} - 0 {}", e, ds),
+                    Err(_) => {
+                        count_off(0);
+                        format!("panic - 0 {}", ds)
+                    }
+                };
+                let ll = if l.is_empty() { "-".to_string() } else { nums(l) };
+                match observe(&c) {
+                    Some(s2) => writeln!(w, "TV {} {} | rv {} | {} | {}", N, s.render_pre(), ll, out, s2.render_full()).unwrap(),
+                    None => writeln!(w, "TV {} {} | rv {} | {} | X", N, s.render_pre(), ll, out).unwrap(),
+                }
                 n += 1;
             }
         }
